@@ -153,7 +153,13 @@ def scripts_crash(tier, rng, prefix):
             for bb in [x for x in b if du <= x < ln][:3]:
                 out.append((f"{name}z{bb}", pre + ["crash", f"fsop zero {i} {bb} {ln - bb}", "fsop settle", "dir", "open"] + PROBE))
         for k, ops in enumerate(crash_images(rng, lay, 3 if tier == "quick" else 5)):
-            out.append((f"{name}i{k}", pre + ["crash"] + ops + ["fsop settle", "dir", "open"] +
+            reopen_cfg = []
+            if prefix == "c03" and (k + len(pre)) % 5 == 0:
+                # recovery with tail truncation disabled: it may refuse, but whenever it opens the
+                # state is an acknowledged prefix and stays one across further writes and a restart
+                c0 = next((l for l in pre if l.startswith("cfg")), "cfg")
+                reopen_cfg = [(c0 + " tr=0").replace("tr=1 ", "")]
+            out.append((f"{name}i{k}", pre + ["crash"] + ops + ["fsop settle", "dir"] + reopen_cfg + ["open"] +
                         (PROBE if (k + len(pre)) % 3 else PROBE_B)))
     return out, {"bases": nb, "crash_points": len(named)}
 
